@@ -2042,8 +2042,11 @@ class PyCdlib:
         with inode.InodeOpenData(ino, self.logical_block_size) as (data_fp, data_len):
             data_fp.seek(8, os.SEEK_CUR)
             bi_table = eltorito.EltoritoBootInfoTable()
-            if bi_table.parse(self.pvd, data_fp.read(eltorito.EltoritoBootInfoTable.header_length()), ino):
-                data_fp.seek(-24, os.SEEK_CUR)
+            # Read the reserved area of the table along with its header, so
+            # that it is kept as it is on the ISO.
+            table = data_fp.read(eltorito.EltoritoBootInfoTable.header_length() + 40)
+            if bi_table.parse(self.pvd, table, ino):
+                data_fp.seek(-(8 + len(table)), os.SEEK_CUR)
                 # Do a final check to make sure the checksum matches.
                 csum = self._calculate_eltorito_boot_info_table_csum(data_fp,
                                                                      data_len)
